@@ -12,6 +12,7 @@ type canonCase struct {
 	boolCase
 	Reverse  bool `json:"reverse_solution"`
 	Preserve bool `json:"preserve_collinear"`
+	Again    bool `json:"second_execute_on_same_engine,omitempty"` // the judged solution is that of a second Execute
 }
 
 func runCanon(c canonCase) (sol clip.Paths64, fault string) {
@@ -24,6 +25,10 @@ func runCanon(c canonCase) (sol clip.Paths64, fault string) {
 		}
 		sol = clip.Paths64{}
 		e.Execute(clip.ClipType(c.CT), clip.FillRule(c.FR), &sol)
+		if c.Again {
+			// the engine keeps its paths: a second Execute must give a canonical solution too
+			e.Execute(clip.ClipType(c.CT), clip.FillRule(c.FR), &sol)
+		}
 	})
 	return
 }
@@ -74,11 +79,12 @@ func c02Check(o *Oracle, c canonCase) (ok bool, kind, detail, resp string) {
 
 func init() {
 	stages["c02-search"] = func(ctx *Ctx, cnt func(q, t int) int, replay string) Result {
-		col := NewCollector("C02", "search", "C01's generators × reverse-solution × preserve-collinear on an engine object; each solution checked for ≥3 vertices, no equal cyclically consecutive vertices, winding ∈ {0, ±1} outside the 2-band of its own edges (Lean oracle), and Union(sol)=sol; non-trivial = non-empty solution with ≥ 2 judged faces; distinct by input hash")
+		col := NewCollector("C02", "search", "C01's generators × reverse-solution × preserve-collinear on an engine object (a quarter of the cases judge the solution of a second Execute on the same engine); each solution checked for ≥3 vertices, no equal cyclically consecutive vertices, winding ∈ {0, ±1} outside the 2-band of its own edges (Lean oracle), and Union(sol)=sol; non-trivial = non-empty solution with ≥ 2 judged faces; distinct by input hash")
 		parallelFor(ctx, cnt(15000, 150000), true, col, func(o *Oracle, i int) {
 			r := NewRng(ctx.Seed, "c02", i)
 			c := canonCase{boolCase: genBoolCase(r, ctx.Tier), Reverse: r.Chance(0.3), Preserve: r.Bool()}
 			maybeGlue(r, &c.boolCase)
+			c.Again = r.Chance(0.25)
 			ok, kind, detail, resp := c02Check(o, c)
 			col.Eval(fmt.Sprint(c), statOf(resp, "faces") >= 2, "ct="+ctName(c.CT), "fr="+frName(c.FR), fmt.Sprintf("reverse=%v", c.Reverse), fmt.Sprintf("preserve=%v", c.Preserve))
 			col.AddN("faces_judged", statOf(resp, "faces"))
